@@ -228,7 +228,7 @@ class _FilePersistence(_ConcretePersistence):
             self._start_time = None
             return
         # pylint: disable-next=unspecified-encoding
-        with open(self._data_filename, "r") as data_file:
+        with open(self._data_filename, "r", errors="surrogateescape") as data_file:
             self._start_time = self._read_first_meta_block(data_file)
 
     @staticmethod
@@ -256,11 +256,12 @@ class _FilePersistence(_ConcretePersistence):
                 # replaces the data file in one step
                 data_dir = os.path.dirname(os.path.abspath(self._data_filename))
                 # pylint: disable-next=consider-using-with
-                target = NamedTemporaryFile("w", delete=False, dir=data_dir)
+                target = NamedTemporaryFile("w", delete=False, dir=data_dir,
+                                            errors="surrogateescape")
                 try:
                     with target:
                         # pylint: disable-next=unspecified-encoding
-                        with open(self._data_filename, "r") as data_file:
+                        with open(self._data_filename, "r", errors="surrogateescape") as data_file:
                             self._process_lines(data_file, current_runs, target)
                     os.replace(target.name, self._data_filename)
                 finally:
@@ -268,7 +269,7 @@ class _FilePersistence(_ConcretePersistence):
                         os.unlink(target.name)
             else:
                 # pylint: disable-next=unspecified-encoding
-                with open(self._data_filename, "r") as data_file:
+                with open(self._data_filename, "r", errors="surrogateescape") as data_file:
                     self._process_lines(data_file, current_runs, None)
         except IOError:
             self.ui.debug_error_info("No data loaded, since %s does not exist.\n"
